@@ -41,11 +41,14 @@ neighbouring cell of its own wire on the solved board) and reported under the ON
 `connector.RandomWalkGenerator:agent-coordinate-outside-grid`; the regression inputs are part of BOTH tiers.
 
 Other findings on the pinned tree (each under its own signature; see the final report of the build):
- * `flat_pack.RandomFlatPackGenerator:blocks-do-not-tile-grid` — blocks are cropped to the top-left of their
-   3x3 array and then rotated, but the environment only lets the 3x3 array be placed fully inside the grid,
-   so a 2-row (2-column) block that has to sit on the bottom (right) edge can only get there in the 180
-   degree orientation; 20 of the 64 first keys at 2x2 blocks (e.g. PRNGKey(6)) admit no complete placement
-   at all (confirmed by exhaustive play of the real environment).
+ * `flat_pack.RandomFlatPackGenerator:tiling-needs-placement-outside-3x3-window` — blocks are cropped to the
+   top-left of their 3x3 array and then rotated, but the environment only lets the 3x3 array be placed fully
+   inside the grid, so a 2-row (2-column) block that has to sit on the bottom (right) edge can only get there
+   in the 180 degree orientation; 20 of the 64 first keys at 2x2 blocks (e.g. PRNGKey(6)) admit no complete
+   placement at all (confirmed by exhaustive play of the real environment).  This signature is used only when
+   the blocks DO tile the grid once the array may overhang (only the non-zero cells must lie inside the grid);
+   if they do not tile it even then (cell counts, shapes), the signature is
+   `flat_pack.<Generator>:blocks-do-not-tile-grid` - a different, unknown defect.
  * `mmst.SplitRandomGenerator:node-degree-exceeds-max-degree` (`add_edge` rejects only when degree >
    max_degree, so max_degree + 1 is reached) and `mmst.SplitRandomGenerator:edge-count-differs-from-num-edges`
    (edge codes are direction dependent, (a,b) and (b,a) are stored as two edges, so the graph has fewer
